@@ -1,6 +1,6 @@
 /-
 C13 — helper lemmas for Props/C13.lean: algebra of the own / `_PATCH_STATE` tables, the
-bracket lemmas for the two entry/unwind loop pairs.
+bracket lemmas for the two entry/unwind loop pairs (code after fix 21b5229).
 -/
 import J2O.Model.C13
 set_option linter.unusedSimpArgs false
@@ -21,7 +21,7 @@ theorem setOwn_self (o : Own) (t : Tgt) (a : Attr) : setOwn o t a (o t a) = o :=
   · rename_i h; rw [h.1, h.2]
   · rfl
 
-theorem setPS_setPS (p : PS) (t : Tgt) (a : Attr) (v w : Option (Val × Nat)) :
+theorem setPS_setPS (p : PS) (t : Tgt) (a : Attr) (v w : Option (Val × Option Val × Nat)) :
     setPS (setPS p t a v) t a w = setPS p t a w := by
   funext t' a'
   simp only [setPS]
@@ -34,212 +34,99 @@ theorem setPS_self (p : PS) (t : Tgt) (a : Attr) : setPS p t a (p t a) = p := by
   · rename_i h; rw [h.1, h.2]
   · rfl
 
-theorem setPS_get (p : PS) (t : Tgt) (a : Attr) (v : Option (Val × Nat)) : setPS p t a v t a = v := by
+theorem setPS_get (p : PS) (t : Tgt) (a : Attr) (v : Option (Val × Option Val × Nat)) :
+    setPS p t a v t a = v := by
   simp [setPS]
 
 theorem setOwn_get (o : Own) (t : Tgt) (a : Attr) (v : Option Val) : setOwn o t a v t a = v := by
   simp [setOwn]
 
-/-- restoring a good key with the value `getattr` returned before the patch gives back the
-    own table exactly -/
-theorem restore_good (H : Hier) (hH : H.SelfFirst) (o : Own) (t : Tgt) (a : Attr) (new : Val)
-    (allow : Bool) (hg : goodKey H o t a allow = true) :
-    setOwn (setOwn o t a (some new)) t a (lookup H o t a) = o := by
-  rw [setOwn_setOwn]
-  obtain ⟨rest, hm⟩ := hH t
-  unfold goodKey at hg
-  unfold lookup
-  rw [hm]
-  simp only [firstOwn]
-  cases ho : o t a with
-  | some v =>
-    rw [ho] at hg
-    simp only [decide_eq_true_eq] at hg
-    simp only [Option.map, hg]
-    rw [← ho]
-    exact setOwn_self o t a
-  | none =>
-    rw [ho] at hg
-    simp only [Bool.and_eq_true] at hg
-    rw [hm] at hg
-    simp only [firstOwn, ho] at hg
-    have : firstOwn o a rest = none := by
-      cases h : firstOwn o a rest with
-      | none => rfl
-      | some x => rw [h] at hg; simp at hg
-    rw [this]
-    simp only [Option.map]
-    rw [← ho]
-    exact setOwn_self o t a
-
-/-- the monitor of `enter` only ever goes from true to false -/
-theorem enter_good_mono (H : Hier) : ∀ (specs : List Spec) (o : Own) (acc : List (Tgt × Attr × Option Val))
-    (g : Bool), (enter H o specs acc g).good = true → g = true := by
-  intro specs
-  induction specs with
-  | nil => intro o acc g h; simpa [enter] using h
-  | cons s rest ih =>
-    intro o acc g h
-    by_cases hf : s.faults = true
-    · simpa [enter, hf] using h
-    · have hf' : s.faults = false := by simpa using hf
-      simp only [enter, hf', Bool.false_eq_true, ↓reduceIte] at h
-      have := ih _ _ _ h
-      simp only [Bool.and_eq_true] at this
-      exact this.1.1
+/-- putting back what the target itself held restores the own table exactly — for EVERY key
+    (own, inherited, provided by nothing, descriptor or not) -/
+theorem restore_own (o : Own) (t : Tgt) (a : Attr) (new : Option Val) :
+    setOwn (setOwn o t a new) t a (o t a) = o := by
+  rw [setOwn_setOwn, setOwn_self]
 
 /-- **bracket lemma for apply_patches**: unwinding what the entry loop applied (in reverse
     order) from the world it produced leads to the same table as unwinding the older entries
-    from the world before — for every spec list, fault position and accumulator. -/
-theorem enter_unwind (H : Hier) (hH : H.SelfFirst) : ∀ (specs : List Spec) (o : Own)
-    (acc : List (Tgt × Attr × Option Val)) (g : Bool),
-    (enter H o specs acc g).good = true →
-    unwind (enter H o specs acc g).own (enter H o specs acc g).applied = unwind o acc := by
+    from the world before — for every spec list, every fault position, every accumulator. -/
+theorem enter_unwind (H : Hier) : ∀ (specs : List Spec) (o : Own)
+    (acc : List (Tgt × Attr × Option Val)),
+    unwind (enter H o specs acc).own (enter H o specs acc).applied = unwind o acc := by
   intro specs
   induction specs with
-  | nil => intro o acc g _; simp [enter]
+  | nil => intro o acc; simp [enter]
   | cons s rest ih =>
-    intro o acc g h
+    intro o acc
     by_cases hf : s.faults = true
     · simp [enter, hf]
     · have hf' : s.faults = false := by simpa using hf
-      simp only [enter, hf', Bool.false_eq_true, ↓reduceIte] at h ⊢
-      have hg := enter_good_mono H _ _ _ _ h
-      simp only [Bool.and_eq_true] at hg
-      rw [ih _ _ _ h]
+      simp only [enter, hf', Bool.false_eq_true, ↓reduceIte]
+      rw [ih]
       simp only [unwind]
-      rw [restore_good H hH o s.tgt s.attr _ true hg.1.2]
+      rw [restore_own]
 
-theorem menter_good_mono (H : Hier) : ∀ (sites : List Site) (st : St) (fs : List Fault)
-    (acc : List (Tgt × Attr)) (g : Bool), (menter H st sites fs acc g).good = true → g = true := by
+theorem PSwf_setPS (p : PS) (t : Tgt) (a : Attr) (orig : Val) (own : Option Val) (c : Nat)
+    (h : PSwf p) (hc : 1 ≤ c) : PSwf (setPS p t a (some (orig, own, c))) := by
+  intro t' a' o' w' c' he
+  simp only [setPS] at he
+  split at he
+  · simp only [Option.some.injEq, Prod.mk.injEq] at he
+    omega
+  · exact h t' a' o' w' c' he
+
+/-- the entry loop keeps `_PATCH_STATE` well formed -/
+theorem menter_wf (H : Hier) : ∀ (sites : List Site) (st : St) (fs : List Fault)
+    (acc : List (Tgt × Attr)), PSwf st.ps → PSwf (menter H st sites fs acc).st.ps := by
   intro sites
   induction sites with
-  | nil => intro st fs acc g h; simpa [menter] using h
+  | nil => intro st fs acc h; simpa [menter] using h
   | cons s rest ih =>
-    intro st fs acc g h
-    simp only [menter] at h
-    split at h
-    · have := ih _ _ _ _ h
-      simp only [Bool.and_eq_true] at this
-      exact this.1
-    · split at h
+    intro st fs acc h
+    simp only [menter]
+    split
+    · rename_i orig own c hps
+      exact ih _ _ _ (PSwf_setPS _ _ _ _ _ _ h (by omega))
+    · split
       · exact h
-      · split at h
-        · have := ih _ _ _ _ h
-          simp only [Bool.and_eq_true] at this
-          exact this.1
+      · split
+        · exact ih _ _ _ (PSwf_setPS _ _ _ _ _ _ h (by omega))
         · exact h
 
 theorem st_eq (a b : St) (h1 : a.own = b.own) (h2 : a.ps = b.ps) : a = b := by
   cases a; cases b; simp_all
 
-/-- **bracket lemma for apply_monkey_patches**: if the entry loop completed, running the exit
-    loop over what it touched leads back to where the older entries are unwound from the state
-    before — reference counts included. -/
-theorem menter_mexit (H : Hier) (hH : H.SelfFirst) : ∀ (sites : List Site) (st : St)
-    (fs : List Fault) (acc : List (Tgt × Attr)) (g : Bool),
-    (menter H st sites fs acc g).good = true → (menter H st sites fs acc g).raised = false →
-    mexit (menter H st sites fs acc g).st (menter H st sites fs acc g).touched = mexit st acc := by
+/-- **bracket lemma for apply_monkey_patches**: whether the entry loop completed or raised
+    half way, running the exit loop over what it touched leads back to where the older entries are
+    unwound from the state before — reference counts included. -/
+theorem menter_mexit (H : Hier) : ∀ (sites : List Site) (st : St)
+    (fs : List Fault) (acc : List (Tgt × Attr)), PSwf st.ps →
+    mexit (menter H st sites fs acc).st (menter H st sites fs acc).touched = mexit st acc := by
   intro sites
   induction sites with
-  | nil => intro st fs acc g _ _; simp [menter]
+  | nil => intro st fs acc _; simp [menter]
   | cons s rest ih =>
-    intro st fs acc g h hr
-    simp only [menter] at h hr ⊢
+    intro st fs acc hwf
+    simp only [menter]
     split
     · -- already patched: count + 1 on entry, count - 1 on exit
-      rename_i orig c hps
-      simp only [hps] at h hr
-      have hg := menter_good_mono H _ _ _ _ _ h
-      simp only [Bool.and_eq_true, decide_eq_true_eq] at hg
-      rw [ih _ _ _ _ h hr]
+      rename_i orig own c hps
+      have hc : 1 ≤ c := hwf _ _ _ _ _ hps
+      rw [ih _ _ _ (PSwf_setPS _ _ _ _ _ _ hwf (by omega))]
       simp only [mexit, setPS_get]
-      have hc : ¬ (c + 1 - 1 = 0) := by omega
-      simp only [hc, if_false, setPS_setPS]
+      have hc' : ¬ (c + 1 - 1 = 0) := by omega
+      simp only [hc', if_false, setPS_setPS]
       have e1 : c + 1 - 1 = c := by omega
       rw [e1, ← hps, setPS_self]
     · rename_i hps
-      simp only [hps] at h hr
       split
-      · -- getattr raised: excluded by `raised = false`
-        rename_i hl
-        simp only [hl] at hr
-        exact absurd hr (by simp)
+      · rfl
       · rename_i orig hl
-        simp only [hl] at h hr
         split
-        · rename_i hf
-          simp only [hf, if_true] at h hr
-          have hg := menter_good_mono H _ _ _ _ _ h
-          simp only [Bool.and_eq_true] at hg
-          rw [ih _ _ _ _ h hr]
+        · rw [ih _ _ _ (PSwf_setPS _ _ _ _ _ _ hwf (by omega))]
           simp only [mexit, setPS_get]
           simp only [Nat.sub_self, if_true, setPS_setPS]
-          have hrest := restore_good H hH st.own s.tgt s.attr (.wrap s.k orig) false hg.2
-          rw [hl] at hrest
-          rw [hrest, ← hps, setPS_self]
-        · rename_i hf
-          simp only [hf, if_false] at hr
-          exact absurd hr (by simp)
-
-end J2O.C13
-
-namespace J2O.C13
-
-/-! ### own copies of inherited attributes (the benign case outside `goodKey`) -/
-
-/-- single-inheritance-like hierarchies: the MRO of every class on the MRO of `s` is the tail of
-    the MRO of `s` from that class on (true for every hierarchy without diamonds) -/
-def Hier.Linear (H : Hier) : Prop :=
-  ∀ s t, t ∈ H.mro s → ∃ pre, H.mro s = pre ++ H.mro t ∧ t ∉ pre
-
-theorem firstOwn_setOwn_other_attr (o : Own) (t : Tgt) (a a' : Attr) (v : Option Val) (h : a' ≠ a) :
-    ∀ l, firstOwn (setOwn o t a v) a' l = firstOwn o a' l := by
-  intro l
-  induction l with
-  | nil => rfl
-  | cons x xs ih =>
-    simp only [firstOwn, setOwn]
-    have : ¬ (x = t ∧ a' = a) := fun hh => h hh.2
-    simp only [this, if_false, ih]
-
-theorem firstOwn_setOwn_not_mem (o : Own) (t : Tgt) (a : Attr) (v : Option Val) :
-    ∀ l, t ∉ l → firstOwn (setOwn o t a v) a l = firstOwn o a l := by
-  intro l
-  induction l with
-  | nil => intro _; rfl
-  | cons x xs ih =>
-    intro h
-    simp only [List.mem_cons, not_or] at h
-    have hx : x ≠ t := fun hh => h.1 hh.symm
-    simp only [firstOwn, setOwn, hx, false_and, if_false, ih h.2]
-
-theorem firstOwn_append (o : Own) (a : Attr) (l₁ l₂ : List Tgt) :
-    firstOwn o a (l₁ ++ l₂) = (firstOwn o a l₁).orElse (fun _ => firstOwn o a l₂) := by
-  induction l₁ with
-  | nil => simp [firstOwn]
-  | cons x xs ih =>
-    simp only [List.cons_append, firstOwn]
-    cases o x a with
-    | some v => simp
-    | none => simpa using ih
-
-/-- **An own copy of an inherited attribute is invisible** to `getattr` on every target, in a
-    hierarchy without diamonds. -/
-theorem ownCopy_invisible (H : Hier) (hH : H.SelfFirst) (hL : H.Linear) (o : Own) (t : Tgt) (a : Attr)
-    (v : Val) (hnone : o t a = none) (hv : firstOwn o a (H.mro t) = some v) (s : Tgt) (a' : Attr) :
-    lookup H (setOwn o t a (some v)) s a' = lookup H o s a' := by
-  unfold lookup
-  by_cases ha : a' = a
-  · subst ha
-    by_cases hm : t ∈ H.mro s
-    · obtain ⟨pre, hpre, hnot⟩ := hL s t hm
-      rw [hpre, firstOwn_append, firstOwn_append, firstOwn_setOwn_not_mem o t a' _ pre hnot]
-      obtain ⟨rest, hr⟩ := hH t
-      have h1 : firstOwn (setOwn o t a' (some v)) a' (H.mro t) = some v := by
-        rw [hr]; simp [firstOwn, setOwn]
-      rw [h1, hv]
-    · rw [firstOwn_setOwn_not_mem o t a' _ _ hm]
-  · rw [firstOwn_setOwn_other_attr o t a a' _ ha]
+          rw [restore_own, ← hps, setPS_self]
+        · rfl
 
 end J2O.C13
